@@ -56,7 +56,7 @@ def add_signal(self, path, t_profile, f_profile, bp_profile=None, bounding_f_ran
         else:
             ts = self.ts
             if doppler_smearing:
-                ts = self.ts_ext
+                ts = np.append(self.ts, self.ts[-1] + self.dt)      # one extra time sample continuing the CURRENT axis
             path = path(ts)
     elif isinstance(path, (list, np.ndarray)):
         path = np.array(path)
